@@ -592,3 +592,102 @@ Proof.
     pose proof (hit_on_settled_equals_twin (er s1) (settled_er s1 S1) eq_refl) as [H1 H2].
     destruct (run_wf false (er s1)) as [a b]. cbn in H1, H2. subst. reflexivity.
 Qed.
+
+(* ---- Stage 2 (c): the twin theorem over whole histories, under the guard "every hit happens in a settled
+   state" (the two known findings are exactly the histories that break it) ------------------------------ *)
+Definition is_hit (st : wstate) : bool :=
+  negb (wfailed st) && match wcache st with Some k => key_eqb k (key st) | None => false end.
+
+Fixpoint hits_settled (st : wstate) (ops : list wop) : Prop :=
+  match ops with
+  | [] => True
+  | o :: r => (o = WRun -> is_hit st = true -> Settled st) /\ hits_settled (fst (wstep true st o)) r
+  end.
+
+Lemma er_upd_kid st i f g : (forall c, er_child (f c) = g (er_child c)) ->
+  er (upd_kid st i f) = upd_kid (er st) i g.
+Proof.
+  intros H. unfold upd_kid. rewrite er_length. destruct (Nat.ltb i (List.length (kids st))); [|reflexivity].
+  rewrite er_set_kid, H, kid_er. reflexivity.
+Qed.
+
+Lemma visible_er st : visible (er st) = visible st.
+Proof.
+  unfold visible, er; cbn. rewrite !map_map. reflexivity.
+Qed.
+
+Lemma step_twin st o : Valid st -> (o = WRun -> is_hit st = true -> Settled st) ->
+  let '(s1, r1) := wstep true st o in
+  let '(s2, r2) := wstep false (er st) o in
+  er s1 = s2 /\ r1 = r2.
+Proof.
+  intros V G. destruct o as [i v|d s|d| |]; cbn [wstep].
+  - split; [|reflexivity]. apply er_upd_kid. intros c. reflexivity.
+  - split; [|reflexivity]. destruct (Nat.ltb s d); [|reflexivity]. apply er_upd_kid. intros c. reflexivity.
+  - split; [|reflexivity]. apply er_upd_kid. intros c. reflexivity.
+  - destruct (is_hit st) eqn:Eh.
+    + (* served from the cache, in a settled state: the twin's run changes nothing either *)
+      pose proof (G eq_refl eq_refl) as S. unfold is_hit in Eh. apply andb_true_iff in Eh. destruct Eh as [Ef Ek].
+      apply negb_true_iff in Ef. unfold run_wf at 1. rewrite Ef, Ek. cbn [andb].
+      destruct (hit_on_settled_equals_twin (er st) (settled_er st S) Ef) as [H1 H2].
+      destruct (run_wf false (er st)) as [a b]. cbn in H1, H2. subst. split; reflexivity.
+    + unfold is_hit in Eh. destruct (wfailed st) eqn:Ef.
+      * unfold run_wf. cbn [wfailed er]. rewrite Ef. split; reflexivity.
+      * cbn [negb andb] in Eh. apply (run_miss_twin st V Eh).
+  - split; [|reflexivity]. unfold er; cbn. f_equal. rewrite !map_map. reflexivity.
+Qed.
+
+Theorem twin_if_hits_settled ops : forall st, Valid st -> hits_settled st ops ->
+  wtrace true st ops = wtrace false (er st) ops.
+Proof.
+  induction ops as [|o r IH]; intros st V H; cbn [wtrace]; [reflexivity|].
+  destruct H as [G Hr]. pose proof (step_twin st o V G) as T. pose proof (valid_step st o V) as V1.
+  destruct (wstep true st o) as [s1 r1]. destruct (wstep false (er st) o) as [s2 r2]. cbn [fst] in *.
+  destruct T as [E R]. subst s2 r2. rewrite visible_er. f_equal. apply IH; assumption.
+Qed.
+
+Lemma er_init ks : er (winit ks) = winit ks.
+Proof. unfold er, winit; cbn. f_equal. rewrite map_map. reflexivity. Qed.
+
+Theorem wf_twin_if_hits_settled ks ops : hits_settled (winit ks) ops ->
+  wtrace true (winit ks) ops = wtrace false (winit ks) ops.
+Proof. intros H. rewrite <- (er_init ks) at 2. apply twin_if_hits_settled; [apply valid_init | exact H]. Qed.
+
+(* a boolean checker for the guard, sound (used for the worked examples) *)
+Definition settled_childb (st : wstate) (i : nat) : bool :=
+  let c := kid st i in
+  negb (cfailed c) && (0 <=? own c)%Z &&
+  match out c with Some v => (v =? ck c + own c)%Z | None => false end &&
+  match src c with
+  | Some j => Nat.ltb j i && match out (kid st j) with Some v => (v =? own c)%Z | None => false end
+  | None => true
+  end.
+Definition settledb (st : wstate) : bool := forallb (settled_childb st) (seq 0 (List.length (kids st))).
+
+Lemma settledb_sound st : settledb st = true -> Settled st.
+Proof.
+  unfold settledb. rewrite forallb_forall. intros H i Hi. specialize (H i).
+  assert (Hin : In i (seq 0 (List.length (kids st)))) by (apply in_seq; lia). specialize (H Hin).
+  unfold settled_childb in H. unfold settled_child.
+  apply andb_true_iff in H. destruct H as [H H4]. apply andb_true_iff in H. destruct H as [H H3].
+  apply andb_true_iff in H. destruct H as [H1 H2].
+  apply negb_true_iff in H1. apply Z.leb_le in H2.
+  destruct (out (kid st i)) as [v|] eqn:Eo; [|discriminate]. apply Z.eqb_eq in H3. subst v.
+  repeat split; try assumption.
+  destruct (src (kid st i)) as [j|]; [|exact I]. apply andb_true_iff in H4. destruct H4 as [Hj Hv]. apply Nat.ltb_lt in Hj.
+  split; [exact Hj|]. destruct (out (kid st j)) as [v|]; [|discriminate]. apply Z.eqb_eq in Hv. subst. reflexivity.
+Qed.
+
+Fixpoint hits_settledb (st : wstate) (ops : list wop) : bool :=
+  match ops with
+  | [] => true
+  | o :: r => (match o with WRun => if is_hit st then settledb st else true | _ => true end) &&
+              hits_settledb (fst (wstep true st o)) r
+  end.
+
+Lemma hits_settledb_sound ops : forall st, hits_settledb st ops = true -> hits_settled st ops.
+Proof.
+  induction ops as [|o r IH]; intros st H; cbn [hits_settledb hits_settled] in *; [exact I|].
+  apply andb_true_iff in H. destruct H as [H1 H2]. split; [|apply IH; exact H2].
+  intros Eo Eh. subst o. rewrite Eh in H1. apply settledb_sound. exact H1.
+Qed.
